@@ -5,6 +5,7 @@
 # Writes /verif/seeded/<seed-id>/eval.log and prints a summary. Never touches /repo's working tree.
 set -u
 SID=$1; shift
+VR=${VERIF_ROOT:-/verif}   # where the checks are run from (a snapshot of /verif keeps an evaluation independent of edits in progress)
 D=/verif/seeded/$SID
 WT=/tmp/seedeval/$SID
 LOG=$D/eval.log
@@ -32,10 +33,10 @@ CARGO_NET_OFFLINE=true timeout 1200 cargo test --offline --workspace --no-fail-f
 echo "existing suite with change rc=$SUITE: $(grep -E '^test result' $D/suite.log | head -1)" | tee -a $LOG
 # 3. our checks against the changed tree
 for P in "$@"; do
-  (cd /verif && VERIF_REPO=$WT ./check $P > $D/check_$P.log 2>&1); RC=$?
+  (cd $VR && VERIF_REPO=$WT ./check $P > $D/check_$P.log 2>&1); RC=$?
   echo "check $P rc=$RC: $(grep -E '^VIOLATION' $D/check_$P.log | head -2 | tr '\n' ' ')" | tee -a $LOG
 done
 cd /
 TAG=$(python3 -c "import hashlib;print(hashlib.md5(b'$WT').hexdigest()[:8])")
-rm -rf /verif/out/alt-$TAG
+rm -rf $VR/out/alt-$TAG
 git -C /repo worktree remove --force $WT; rm -rf $WT
